@@ -129,6 +129,7 @@ std::string propTsm(const FmmCase& c, const std::string& prop){
     };
 
     auto treeA = buildTree(c, config, inS, inT);
+    std::string perCallErr;
     const bool ogpp = (c.blockSize == -1) ? false : (c.oneGroupPerParent != 0);
     (void)ogpp;
     probe::Ctx ctxA(c.salt); setupCtx(ctxA);
@@ -139,7 +140,11 @@ std::string propTsm(const FmmCase& c, const std::string& prop){
     {
         std::unique_ptr<SeqAlgo> seq;
         if(c.lstop == -100) seq.reset(new SeqAlgo(config, Kernel(&ctxA))); else seq.reset(new SeqAlgo(config, Kernel(&ctxA), long(c.lstop)));
-        for(int fl : calls) seq->execute(*treeA, fl);
+        for(int fl : calls){
+            const size_t from = ctxA.log.size();
+            seq->execute(*treeA, fl);
+            if(perCallErr.empty()) perCallErr = fh::checkOpsOfCall(ctxA.log, from, fl, lstop, Dim);
+        }
     }
     std::vector<unsigned char> srcSymbAfter;
     for(const auto& g : treeA->getParticleGroupsSource()){ const unsigned char* p = g.getDataPtr(); srcSymbAfter.insert(srcSymbAfter.end(), p, p + g.getDataSize()); }
@@ -212,6 +217,7 @@ std::string propTsm(const FmmCase& c, const std::string& prop){
         if(seqErr.empty() && srcSymbBefore != srcSymbAfter) seqErr = "execution modified the source particles";
         if(seqErr.empty() && !ctxA.errors.empty() && (prop == "C02" || prop == "C09")) seqErr = "arguments: " + ctxA.errors.front();
     }
+    if(seqErr.empty() && !perCallErr.empty()) seqErr = perCallErr;
     const bool wantSeq = (prop == "C09" || prop == "C02");
     if(!seqErr.empty()){
         if(wantSeq || RT == 0) return std::string("sequential-tsm: ") + seqErr;
@@ -240,8 +246,10 @@ std::string propTsm(const FmmCase& c, const std::string& prop){
             std::vector<uint32_t> s2 = c.sched; if(!s2.empty()) s2.push_back(uint32_t(ic) * 2654435761u);
             S.reset(c.threads, s2);
             ctxB.accesses.clear(); ctxB.kernelUse.clear();
+            const size_t logFrom = ctxB.log.size();
             algo->execute(*treeB, calls[ic]);
             for(const auto& t : S.tasks) if(!t.done){ err = "execute() returned while a submitted task had not run"; break; }
+            if(err.empty()) err = fh::checkOpsOfCall(ctxB.log, logFrom, calls[ic], lstop, Dim);
             totalTasks += long(S.tasks.size()); totalDeferred += S.deferred;
             for(int w : S.workersUsed) workers.insert(w);
             if(err.empty()){
@@ -397,6 +405,7 @@ pbt::GenCfg cfgFor(const std::string& prop, const hc::Args& a){
     g.schedules = true; g.executors = 1 << RT; g.variants = 2; g.varyThreads = (RT != 3);
 #endif
     if(prop == "C12") g.histories = true;
+    if(prop == "C09"){ g.histories = true; g.historyOneIn = 4; }   // a full execution may be issued as several execute() calls (README, flag list)
     if(prop == "C13"){ g.cycles = true; g.maxCycles = 3; g.lstops = false; }
     return g;
 }
